@@ -44,6 +44,7 @@ from concurrent.futures import ThreadPoolExecutor
 from vf import build, tlc, trace
 from vf import run as hrun
 from vf.core import InfraError
+from checks.deferred import Deferred
 
 LEVEL = "exploration"
 READY = True
@@ -284,7 +285,20 @@ def _plan(ctx, shapes):
 
 
 # ------------------------------------------------------------------------------------------------ (C) recording
-def _check_run(ctx, h, ev):
+def _check_run(ctx, h, ev, deferred=None):
+    """-> the events to judge.  A harness that timed out / a fit that met the wall-clock watchdog can be the doing of a changed library (a fit that hangs outside the
+    NIPALS loops): with `deferred` the finding is remembered, the complete recorded models are still judged and the finding is settled at the end of run()"""
+    if deferred is not None:
+        try:
+            _check_run(ctx, h, ev)
+        except InfraError as ex:
+            deferred.add(ex)
+            blocks = tlc.split_blocks([e for e in ev if e.get("e") != "Summary"]) if ev else []
+            if blocks and not any(e.get("e") == "Summary" for e in ev):
+                blocks = blocks[:-1]                  # the model that was running when the harness process was stopped
+            # not a verdict (machine load cannot be told from a hang): the models the watchdog stopped are left out
+            return [e for b in blocks if not any(e.get("e") == "Abort" and e.get("why") == "watchdog" for e in b) for e in b]
+        return ev
     if h.san:
         blk = next((b for b in tlc.split_blocks(ev) if any(e.get("e") == "Abort" and e.get("rc") in (98, 99) for e in b)), None) or (tlc.split_blocks(ev) or [[]])[-1]
         fit = next((e for e in blk if e.get("e") == "Fit"), {})
@@ -299,7 +313,7 @@ def _check_run(ctx, h, ev):
         raise InfraError("c09 harness: wall-clock watchdog fired without the iteration budget (machine load)")
 
 
-def _record(ctx, exe, rd, sweep, groups, mode="jobs", timeout=2400, extra=False):
+def _record(ctx, exe, rd, sweep, groups, mode="jobs", timeout=2400, extra=False, deferred=None):
     """run the random sweeps and the planned class cases (every group cut into files of a few dozen jobs) under ONE pool of W processes;
     histories run with the ASan quarantine off so that freed addresses are reused"""
     tasks = []
@@ -323,9 +337,10 @@ def _record(ctx, exe, rd, sweep, groups, mode="jobs", timeout=2400, extra=False)
         ev = hrun.read_ndjson(out)
         if extra and h.san:
             h.san = None
-        _check_run(ctx, h, ev)
+        kept = _check_run(ctx, h, ev, deferred)
+        ev = ev if kept is None else kept
         chunks.append([e for e in ev if e.get("e") != "Summary"])
-    return chunks
+    return [c for c in chunks if c] if deferred else chunks
 
 
 def _case_of(fit):
@@ -754,7 +769,12 @@ def run(ctx):
         sweep = [(s + 977 * i, 75, 1) for i in range(4)] if ctx.quick else [(s + 977 * i, 1500, 1) for i in range(6)] + [(s + 5003, 60, 2), (s + 5004, 30, 16)]
         audit = os.environ.get("C09_AUDIT_OLD") == "1"
         groups = {} if audit else _plan(ctx, shapes)
-        chunks = _record(ctx, exe, rd, sweep, groups)
+        deferred = Deferred(ctx)
+        chunks = _record(ctx, exe, rd, sweep, groups, deferred=deferred)
+        if not chunks:
+            deferred.add("c09 harness recorded no complete model")
+            deferred.settle()
+            return
         fut_acc = bg.submit(_account, ctx, chunks, audit)       # accounting + the TLC run that tags the executed shapes, beside the validation
         for b in tlc.split_blocks(chunks[0])[:2] + [b for ch in chunks[len(sweep):] for b in tlc.split_blocks(ch)[:1]][:4]:
             ctx.sample(b)
@@ -766,11 +786,13 @@ def run(ctx):
         nfit, ndrop = fut_acc.result()
         ctx.note("recorded %d models (%d dropped as outside the quantifier: %s); worst observed: %s" % (nfit, ndrop, ctx.steps["models"]["dropped_why"], ctx.steps["worst_observed"]))
         if not audit:
-            _vacuity(ctx)
+            deferred.guard(_vacuity, ctx)
         ctx.traces(max(0, nfit - rej))
-        _binding(ctx, chunks)
-        if not audit:
-            _refit_extra(ctx, exe, rd, shapes)
+        if not deferred:
+            _binding(ctx, chunks)
+            if not audit:
+                _refit_extra(ctx, exe, rd, shapes)
+        deferred.settle()
     finally:
         bg.shutdown(wait=True)
         shutil.rmtree(rd, ignore_errors=True)
